@@ -193,6 +193,23 @@ def route_classes(case):
 CLASSES = ['no-data-route', 'data-coarser-multiple', 'data-finer-divisor', 'data-not-a-multiple', 'two-trading-timeframes']
 
 
+def closefill_cases(first_id):
+    """fills exactly at the close of the LAST minute of a bigger-timeframe window, with a wick beyond the close: the forming
+    candle stored at the fill and the completed candle then share close and volume and differ only in low / high"""
+    from ..drivers.candle_runs import chunk_of
+    cases = []
+    sets = [('1m', ['5m']), ('5m', ['15m']), ('1m', ['3m', '15m']), ('3m', ['15m']), ('15m', ['5m'])]
+    for ttf, dtfs in sets:
+        for fast in (False, True):
+            for W in (0, 15):
+                # minute 14 and 29 are the last minutes of a 3m / 5m / 15m window at once (entry, then take-profit)
+                case = dict(id=first_id + len(cases), fast=fast, syms=[B], trading=[(B, ttf)], data=[(B, t) for t in dtfs],
+                            W=W, N=47, seed=0, pattern={"14": 3, "29": 3, "34": 3}, src='T-closefill')
+                case['chunk'] = chunk_of(case)
+                cases.append(case)
+    return cases
+
+
 def _run(case):
     from ..drivers.candle_runs import run_case
     return run_case(case)
@@ -334,12 +351,14 @@ def run(ctx):
     # ------------------------------------------------------------ T
     n_t = ctx.pick(100, 1500)
     cases += random_cases(ctx, rng, n_t, first_id=cid + 1)
+    cf = closefill_cases(first_id=cid + n_t + 1000)
+    cases += cf
     traces = run_cases(ctx, cases)
     ctx.log("drivers: %d real backtests done" % len(traces))
     for t in traces:
         if t.get('enc_err'):
             raise Machinery("case %r left the integer lattice: %s" % (t['case'], t['enc_err']))
-    hid = cid + n_t + 10
+    hid = cid + n_t + 5000
     helpers = CR.helper_traces(rng, ctx.pick(40, 600), hid)
     for h in helpers:
         h['case'] = dict(src='helper', id=h['id'])
@@ -357,6 +376,11 @@ def run(ctx):
             ctx.nontrivial.add(key)
         if t['case'].get('src') == 'R':
             realized.add((t['hdr']['mode'], tuple(t['hdr']['routes']), tuple(s['fill_minutes'])))
+    nclose = sum(1 for t in traces if t['case'].get('src') == 'T-closefill' and
+                 any(m % 15 == 14 for m in t['stats']['fill_minutes']))
+    if nclose < len(cf) // 2:
+        raise Machinery("vacuity: only %d of %d close-fill scenarios produced a fill in the last minute of a window" % (nclose, len(cf)))
+    ctx.coverage["runs_with_a_fill_at_the_close_of_a_windows_last_minute"] = nclose
     for src in ('R', 'T'):
         for t in traces:
             if t['case'].get('src') == src and t['stats']['fills'] > 0 and t['stats']['formingreads'] > 0:
